@@ -529,6 +529,7 @@ func checkC20(tier string, seed int64, workers int, budget float64) int {
 		Histories  int            `json:"histories"`
 		Restarts   int            `json:"restarts"`
 		Commands   int            `json:"commands"`
+		Polls      int            `json:"polls"`
 		Distinct   map[string]int `json:"distinct"`
 		Faults     map[string]int `json:"faults"`
 		Probes     map[string]int `json:"probes"`
@@ -550,6 +551,7 @@ func checkC20(tier string, seed int64, workers int, budget float64) int {
 		tot.Histories += r.Histories
 		tot.Restarts += r.Restarts
 		tot.Commands += r.Commands
+		tot.Polls += r.Polls
 		for k, v := range r.Distinct {
 			tot.Distinct[k] += v
 		}
@@ -587,21 +589,22 @@ func checkC20(tier string, seed int64, workers int, budget float64) int {
 	ev := map[string]interface{}{
 		"property_id": "C20", "tier": tier, "seed": seed, "level": "fault_enumeration", "wall_s": wall, "violations": len(unknown),
 		"coverage": map[string]interface{}{
-			"evaluations":         tot.Restarts + tot.Commands,
+			"evaluations":         tot.Restarts + tot.Commands + tot.Polls,
 			"distinct_nontrivial": len(tot.Distinct),
-			"rule":                "per seeded Minter block history, EVERY cursor the connector can persist (block boundaries) x EVERY nonce the hub could have acknowledged (none, each event nonce incl. mid-block because of 10-message chunking, one beyond the chain) is one restart of the real resync code; plus lost/empty/torn/garbage status files and Minter API errors; histories above 4000 pairs are strided. distinct = distinct (cursor position, acknowledged-nonce position / file fault) classes; every restart is non-trivial (it runs the real scan). Command payloads: fuzzed against the statement's well-formedness rule.",
+			"rule":                "per seeded Minter block history, EVERY cursor the connector can persist (block boundaries) x EVERY nonce the hub could have acknowledged (none, each event nonce incl. mid-block because of 10-message chunking, one beyond the chain) is one restart of the real resync code; plus lost/empty/torn/garbage status files and Minter API errors; histories above 4000 pairs are strided. distinct = distinct (cursor position, acknowledged-nonce position / file fault) classes; every restart is non-trivial (it runs the real scan). Polls: from (up to 60 per history) persisted cursors ONE step of the real polling loop (relayMinterEvents, generated copy of main.go); a step that finds bridge events is killed while handing the claims over (CommitTx), the status file on disk must be a consistent cursor and a real restart from it must number canonically; a quiet step must end at the end of its range. Command payloads: fuzzed against the statement's well-formedness rule.",
 			"samples":             tot.Samples,
 			"exhaustive":          false,
 			"histories":           tot.Histories,
 			"restarts":            tot.Restarts,
 			"command_payloads":    tot.Commands,
+			"polls":               tot.Polls,
 			"restart_classes":     tot.Distinct,
 			"faults_fired":        tot.Faults,
 			"probes":              tot.Probes,
 			"histories_per_hour":  float64(tot.Histories) / wall * 3600,
 			"restarts_per_hour":   float64(tot.Restarts) / wall * 3600,
-			"real_components":     []string{"minter-connector/minter.GetLatestMinterBlockAndNonce", "minter-connector/context (LoadStatus, Commit, status file on disk)", "minter-connector/command.ValidateAndComplete", "minter-go-sdk http_client.Client (above the ClientService seam)"},
-			"stub_components":     []string{"Minter node HTTP API (api_service.ClientService stub serving the model's blocks)", "connector main loop (package main, not importable): its persisted cursors are enumerated as block-boundary cursors of the canonical numbering", "hub acknowledgement (an integer)"},
+			"real_components":     []string{"minter-connector/minter.GetLatestMinterBlockAndNonce", "minter-connector/context (LoadStatus, Commit, status file on disk)", "minter-connector/command.ValidateAndComplete", "minter-go-sdk http_client.Client (above the ClientService seam)", "cmd/mhub-minter-connector relayMinterEvents (copy of main.go generated at build time) incl. cosmos.CreateClaims"},
+			"stub_components":     []string{"Minter node HTTP API (api_service.ClientService stub serving the model's blocks)", "tx_committer (absent: handing claims over kills the process - the only hand-over available without a Cosmos RPC)", "hub acknowledgement (an integer)"},
 			"clock":               "retry sleeps run inside testing/synctest bubbles (fake clock)",
 		},
 		"assumptions": []string{"the main loop persists cursors only at block boundaries (read from cmd/mhub-minter-connector/main.go relayMinterEvents)", "bridge-event classification of the model follows the statement; edit-multisig payloads are decimal integers as strconv.Atoi reads them"},
